@@ -74,7 +74,9 @@ func (s *rdSys) zone(seq uint64) bool {
 	}
 	M := s.m()
 	ahead := (seq + M - s.newest) % M
-	lo, hi := M/2-1, (M+1)/2+1
+	// exactly the two numbers nearest the half-space boundary (the property leaves them unconstrained)
+	lo := (M - 1) / 2
+	hi := lo + 1
 	return ahead >= lo && ahead <= hi
 }
 
@@ -91,7 +93,7 @@ func (s *rdSys) model(seq uint64) (ok, latest bool) {
 		M := s.m()
 		ahead := (seq + M - s.newest) % M
 		behind := (s.newest + M - seq) % M
-		if ahead > 0 && ahead < M/2 {
+		if ahead > 0 && 2*ahead < M {
 			return true, true
 		}
 		if behind < w && !s.accepted[seq] {
